@@ -16,13 +16,14 @@ import (
 
 type C06Case struct {
 	Case     *CheckCase `json:"case"`
-	NameRaw  []byte     `json:"name_raw"` // TB name (arbitrary bytes)
+	NameRaw  []byte     `json:"name_raw"`       // TB name (arbitrary bytes)
+	Vary     bool       `json:"vary,omitempty"` // the failure message differs from execution to execution
 	ViaFlag  bool       `json:"via_flag,omitempty"`
 	MovedDir string     `json:"moved_dir,omitempty"` // via flag: the file was copied into a directory of this name first (a CI artifact directory, say)
 	MovedAbs bool       `json:"moved_abs,omitempty"` // ... and is named by its absolute path
-	Renamed  string     `json:"renamed,omitempty"`  // via flag: the file was copied to this name first (attached to a bug report, say); relative path
-	LongLine int        `json:"longline,omitempty"` // longest output line requested (bytes)
-	Stale    int        `json:"stale,omitempty"`    // fail files of earlier failures (all-zero words of various lengths) already present
+	Renamed  string     `json:"renamed,omitempty"`   // via flag: the file was copied to this name first (attached to a bug report, say); relative path
+	LongLine int        `json:"longline,omitempty"`  // longest output line requested (bytes)
+	Stale    int        `json:"stale,omitempty"`     // fail files of earlier failures (all-zero words of various lengths) already present
 }
 
 type c06 struct{}
@@ -114,6 +115,12 @@ func (c06) Gen(dt *drv.T, c *Ctx) any {
 		p.Body = append(p.Body, st)
 	}
 	p.Body = append(p.Body, genSig(dt, allSigKinds))
+	if chance(dt, "varymsg", 15) {
+		// the failure message is not the same text in two executions of the same test case (it names a sequence
+		// number, an address, a duration): the failure is the same failure and has to be persisted like any other
+		p.Body[len(p.Body)-1].Vary = true
+		cs.Vary = true
+	}
 	cs.Case.Prog = p
 	cs.Case.Cfg = CheckCfg{Name: string(cs.NameRaw), Seed: drv.Uint64Range(1, 1<<62).Draw(dt, "seed"), Checks: drv.IntRange(1, 5).Draw(dt, "checks"), ShrinkNS: 0}
 	if shape == "normal" || shape == "nodraw" {
@@ -247,6 +254,9 @@ func (c06) Run(c *Ctx, csAny any) Outcome {
 	if cs.ViaFlag {
 		_ = os.Chdir(dir)
 	}
+	if cs.Vary {
+		out.Classes = append(out.Classes, "failure-message-differs-between-executions")
+	}
 	name := cfg.Name
 	out.NonTrivial = needsSanitising(name) || cs.LongLine >= 4096 || words1len == 0 || words1len > 1000
 	if needsSanitising(name) {
@@ -311,7 +321,7 @@ func (c06) Run(c *Ctx, csAny any) Outcome {
 		out.Viol = violf("C06:not-failed-after-0", "name %q: the next run reports %q after %d tests", name, r2.Rep.Kind, r2.Rep.After)
 		return out
 	}
-	if r2.Rep.Msg != r1.Rep.Msg {
+	if stripVary(r2.Rep.Msg) != stripVary(r1.Rep.Msg) {
 		out.Viol = violf("C06:other-failure", "first run failed with %q, the replay with %q", r1.Rep.Msg, r2.Rep.Msg)
 		return out
 	}
